@@ -654,10 +654,16 @@ def run(ctx):
     elif not tie["ok"]:
         from vlib import c06_tpl as TP
         try:
-            fl, fv = TP.differing_shapes("enc")
-            fam = TP.shape_family()
-            dl = [A.eth_ty(t) for t, ok in zip(fam, fl) if not ok]
-            dv = [A.eth_ty(t) for t, ok in zip(fam, fv) if not ok]
+            if str(tie.get("failed_lemma", "")).startswith(("tie_norm", "norm_family")):
+                fl, fv = TP.differing_shapes("norm")
+                prs = TP.norm_pairs()
+                dl = []
+                dv = [A.eth_ty(a) + " -> " + A.eth_ty(b_) for (a, b_), ok in zip(prs, fl) if not ok]
+            else:
+                fl, fv = TP.differing_shapes("enc")
+                fam = TP.shape_family()
+                dl = [A.eth_ty(t) for t, ok in zip(fam, fl) if not ok]
+                dv = [A.eth_ty(t) for t, ok in zip(fam, fv) if not ok]
         except Exception as e:  # noqa
             dl, dv = [f"(could not localise: {e})"], []
         ctx.violation("correspondence-broken", f"{tie.get('failed_lemma')}: emitted encoder IR differs from the template model "
